@@ -421,12 +421,20 @@ def rule_i8(repo):
         f = repo.func(rel, qual)
         cfg = cfg_of(f.node)
         adds, uses = [], []
+        # a nested helper that adds to the table counts at its call sites
+        adders = {}
+        for g in f.nested.values():
+            for c in ast.walk(g.node):
+                if isinstance(c, ast.Call) and call_attr(c) == 'match_incr' and len(c.args) == 2:
+                    adders[g.name] = src(c.args[1], 40)
         for n in cfg.nodes:
             if n.ast is None or n.kind not in ('stmt', 'test', 'return'):
                 continue
             for c in ast.walk(n.ast) if not isinstance(n.ast, (ast.For, ast.If, ast.Try, ast.While, ast.FunctionDef)) else []:
                 if isinstance(c, ast.Call) and call_attr(c) == 'match_incr' and len(c.args) == 2:
                     adds.append((n, src(c.args[1], 40)))
+                if isinstance(c, ast.Call) and isinstance(c.func, ast.Name) and c.func.id in adders:
+                    adds.append((n, adders[c.func.id]))
                 if isinstance(c, ast.Call) and call_attr(c) in ('subst_type', 'subst', 'subst_norm') and c.args:
                     uses.append((n, src(c.args[0], 40), c))
         need(adds, '%s: no addition to a type instantiation found' % qual)
